@@ -812,6 +812,34 @@ def install(prog):
         if isinstance(d, RVec): d.v.reverse()
         else: d.l[d.lo:d.hi] = d.l[d.lo:d.hi][::-1]
         return UNIT
+    def sort_model(I, a, c):
+        """stable merge-free insertion sort; comparisons on symbolic keys fork"""
+        d = I.deref(a[0])
+        if isinstance(d, RVec): lst, lo, hi = d.v, 0, len(d.v)
+        else: lst, lo, hi = d.l, d.lo, d.hi
+        items = lst[lo:hi]
+        name = c.split('::')[-1].split('<')[0] if '::<' not in c else c[:c.rindex('::<')].split('::')[-1]
+        if name in ('sort_by_key', 'sort_unstable_by_key', 'sort_by_cached_key'):
+            keys = []
+            for k in range(len(items)):
+                cell = items
+                keys.append(I.call_closure(a[1], [Ref(items, k)]))
+            def less(i, j): return key_less(I, keys[i], keys[j])
+        elif name in ('sort_by', 'sort_unstable_by'):
+            def less(i, j):
+                r = I.deref(I.call_closure(a[1], [Ref(items, i), Ref(items, j)]))
+                return r.tag == 'Less'
+        else:
+            def less(i, j): return key_less(I, items[i], items[j])
+        order = []
+        for i in range(len(items)):
+            pos = len(order)
+            while pos > 0 and less(i, order[pos - 1]): pos -= 1
+            order.insert(pos, i)
+        lst[lo:hi] = [items[i] for i in order]
+        return UNIT
+    for nm in ('sort', 'sort_by', 'sort_by_key', 'sort_unstable', 'sort_unstable_by', 'sort_unstable_by_key'):
+        prog.models['<impl [_]>::' + nm] = sort_model
     @M('<impl [_]>::binary_search')
     def _(I, a, c):
         # core::slice::binary_search_by of the pinned toolchain (behaviour on unsorted input matters)
@@ -992,6 +1020,25 @@ def install(prog):
     models_os.install(prog)
     import osmodel
     osmodel.install(prog)
+
+def key_less(I, x, y):
+    x = I.deref(x); y = I.deref(y)
+    if isinstance(x, bool) or isinstance(y, bool) or (is_sym(x) and z3.is_bool(x)) or (is_sym(y) and z3.is_bool(y)):
+        # false < true
+        return truthy(I, b_and(b_not(x), y))
+    if isinstance(x, (RString, tuple)) or isinstance(y, (RString, tuple)):
+        xs = I.str_of(x); ys = I.str_of(y)
+        for p, q in zip(xs, ys):
+            if truthy(I, ch_eq(p, q)): continue
+            lt = (p < q) if not (is_sym(p) or is_sym(q)) else z3.ULT(p if is_sym(p) else z3.BitVecVal(p, 32), q if is_sym(q) else z3.BitVecVal(q, 32))
+            return truthy(I, lt)
+        return len(xs) < len(ys)
+    if isinstance(x, Agg) and isinstance(y, Agg):
+        for p, q in zip(x.f, y.f):
+            if key_less(I, p, q): return True
+            if key_less(I, q, p): return False
+        return False
+    return truthy(I, ilt(I, x, y))
 
 def index_model(I, a, c):
     d = I.deref(a[0]); idx = I.deref(a[1])
